@@ -520,6 +520,22 @@ def judge_c10(mb, run, result):
         return []   # C09's subject
     fc = h.first('fc')
     out = client_registration(h, run)
+    rfc = h.first('reentrant_fc')
+    if rfc is not None and rfc['result'] == 'ok':
+        # FinalConstruct succeeded when the user's log handler called it in the middle of set-up: from then on no client
+        # can be registered - in particular not the one whose registration was in progress
+        from .tapes import quote_id
+        for r in h.by_kind.get('client_registered', []):
+            if r['seq'] > rfc['seq']:
+                out.append(Violation('final-construct:client-registered-afterwards',
+                                     f"client #{r['cl']} was registered although FinalConstruct had succeeded (called by the log sink on its message #{run.get('reentryfc')})"))
+                break
+        before = [quote_id(run['client_names'][int(r['cl'])]) for r in h.by_kind.get('client_registered', []) if r['seq'] < rfc['seq']]
+        for r in h.by_kind.get('client_ids_setup', []):
+            got = sorted([] if r['ids'] == '-' else r['ids'].split(','))
+            if got != sorted(before) and not out:
+                out.append(Violation('final-construct:client-registered-afterwards', f'registry lists {got}, registered before FinalConstruct succeeded: {sorted(before)}'))
+        return out
     mon = h.first('monitor_registered')
     mon_ok = mon is not None and mon['result'] == 'ok'
     if mon_ok and mon['fcstate'] == '2':
